@@ -1,4 +1,5 @@
-(* C19 -- property theorems only.  Statements are about Model/Regress.v.  The predict identities hold
+(* C19 -- property theorems only.  Statements are about Model/Regress.v (predict, stored attributes, fit loops, CP_PLSR) and
+   Model/RegressObj.v (n_iterations_ / norm_W_, the estimator objects under call sequences, CP_PLSR entry points).  The predict identities hold
    for every carrier F and every record of operations Op (they are pure index bookkeeping: no algebraic
    law is used, so they hold verbatim for Z, Q, R and for IEEE floats with a fixed summation order);
    the centring lemmas hold for every Op satisfying ring_theory. *)
